@@ -80,6 +80,8 @@ pub fn setup(engine: &mut Engine) {
     engine.register_fn("host-add3", |a: isize, b: isize, c: isize| -> isize { a.wrapping_add(b).wrapping_add(c) });
     engine.register_fn("host-concat", |a: String, n: usize, c: char| -> String { format!("{}{}{}", a, n, c) });
     engine.register_fn("host-zero", || -> isize { 7 });
+    // a host function that panics (the embedder recovers with catch_unwind, as the worker does)
+    engine.register_fn("host-panic", || -> isize { panic!("host function panicked on purpose") });
     // values produced by the host
     engine.register_fn("host-make-u64-max", || -> u64 { u64::MAX });
     engine.register_fn("host-make-usize-max", || -> usize { usize::MAX });
